@@ -299,7 +299,7 @@ def run_budgeted(fn, budget):
 def badarg_catalogue():
     """(method, args, kwargs) triples that the in-place transformations must either
     reject leaving the shape unchanged, or accept consistently."""
-    bad = ["ab", None, 1j, [2], Decimal(3), "3", (1, 2, 3), float("nan"), float("inf")]
+    bad = ["ab", None, 1j, [2], Decimal(3), "3", (1, 2, 3), float("nan"), float("inf"), 10**400]
     good = [2, Fraction(3, 2), 0.5]
     cat = []
     for b in bad:
